@@ -138,6 +138,7 @@ func areaHeader(r *Rng, n int, dir string) (*AreaOut, error) {
 			out.CaseDescs = append(out.CaseDescs, "parse "+hexs(v))
 		}
 	}
+	headerLargeExtension(out)
 	out.Cases = len(cases)
 	out.Distinct = len(seen)
 	for i := 0; i < 3 && i < len(cases); i++ {
